@@ -552,6 +552,8 @@ func judgeC13(c *Check, p *plan.Plan, pr *ProcResult) *Judged {
 					want = (&nurl.URL{}).String()
 				} else if u, err := nurl.Parse(*eff.URL); err == nil {
 					want = u.String()
+				} else {
+					want = (&nurl.URL{Opaque: *eff.URL}).String()
 				}
 			}
 			if oo.Rec.URL != want {
